@@ -1,9 +1,10 @@
 CONSTANTS Keys = {"a", "b"}
-          NHol = 5
-          NWk = 4
-          NLo = 3
-          NHi = 3
+          NHol = 3
+          NWk = 2
+          NLo = 1
+          NHi = 2
           ConAdjs = {"f", "p", "m"}
+          ConFull = TRUE
           Rich = TRUE
           MaxObj = 2
           Depth = 0
